@@ -241,3 +241,74 @@ func VerifC01TrimCellValue(s string) (string, bool) {
 	v, ns := trimCellValue(s, false)
 	return v, ns.Value == "preserve"
 }
+
+// verifC01DumpCols prints: n { min max bestFit collapsed customWidth hidden outline phonetic style width|~ }
+func verifC01DumpCols(cols []xlsxCol) string {
+	var b strings.Builder
+	b.WriteString(strconv.Itoa(len(cols)))
+	for i := range cols {
+		c := &cols[i]
+		w := "~"
+		if c.Width != nil {
+			w = verifC01Hex(strconv.FormatFloat(*c.Width, 'g', -1, 64))
+		}
+		fmt.Fprintf(&b, " %d %d %s %s %s %s %d %s %d %s", c.Min, c.Max, verifC01B(c.BestFit), verifC01B(c.Collapsed),
+			verifC01B(c.CustomWidth), verifC01B(c.Hidden), c.OutlineLevel, verifC01B(c.Phonetic), c.Style, w)
+	}
+	return b.String()
+}
+
+// VerifC01MergeCols runs mergeExpandedCols (what workSheetWriter does to <cols> on
+// every save) on the given column definitions.
+func VerifC01MergeCols(spec string) (res string) {
+	defer func() {
+		if recover() != nil {
+			res = "PANIC"
+		}
+	}()
+	w := strings.Fields(spec)
+	if len(w) == 0 {
+		return "bad-op"
+	}
+	n, err := strconv.Atoi(w[0])
+	if err != nil || n < 0 || len(w) != 1+10*n {
+		return "bad-op"
+	}
+	cols := make([]xlsxCol, n)
+	for i := 0; i < n; i++ {
+		f := w[1+10*i : 11+10*i]
+		c := &cols[i]
+		c.Min, _ = strconv.Atoi(f[0])
+		c.Max, _ = strconv.Atoi(f[1])
+		c.BestFit, c.Collapsed, c.CustomWidth, c.Hidden = f[2] == "1", f[3] == "1", f[4] == "1", f[5] == "1"
+		ol, _ := strconv.Atoi(f[6])
+		c.OutlineLevel = uint8(ol)
+		c.Phonetic = f[7] == "1"
+		c.Style, _ = strconv.Atoi(f[8])
+		if f[9] != "~" {
+			s, ok := verifC01Unhex(f[9])
+			v, err := strconv.ParseFloat(s, 64)
+			if !ok || err != nil {
+				return "bad-op"
+			}
+			c.Width = &v
+		}
+	}
+	ws := &xlsxWorksheet{Cols: &xlsxCols{Col: cols}}
+	(&File{}).mergeExpandedCols(ws)
+	return "ok " + verifC01DumpCols(ws.Cols.Col)
+}
+
+// VerifC01Cols dumps the <cols> list of a worksheet.
+func VerifC01Cols(f *File, sheet string) string {
+	ws, err := f.workSheetReader(sheet)
+	if err != nil {
+		return "ERR"
+	}
+	ws.mu.Lock()
+	defer ws.mu.Unlock()
+	if ws.Cols == nil {
+		return "ok 0"
+	}
+	return "ok " + verifC01DumpCols(ws.Cols.Col)
+}
